@@ -178,7 +178,10 @@ func engineProblem(sp *Spec, res *simrt.Result) string {
 	if res.EngineErr != "" {
 		return res.EngineErr
 	}
-	if (res.Stuck || res.StepsExceeded) && !sp.StuckIsViolation {
+	// a verdict the harness reached before the run ran out of budget stands: the oracle judged real
+	// behaviour, the overrun afterwards (e.g. a background loop of a changed go-zero spinning while a
+	// client sleeps) only ends the run
+	if (res.Stuck || res.StepsExceeded) && !sp.StuckIsViolation && res.Failure == nil {
 		return fmt.Sprintf("run exceeded its budgets (stuck=%v stepsExceeded=%v) alive: %v", res.Stuck, res.StepsExceeded, res.Leftover)
 	}
 	if len(res.Crashed) > 0 && !sp.CrashIsViolation {
